@@ -602,3 +602,104 @@ func c12namedPatch(c *core.Check) {
 		c.Unknown("patch-without-target", key, c.Prog.Rel(fd.Pos()), "no append to "+recv+".files found")
 	}
 }
+
+// everyPathPasses reports whether every path from the entry of fd to one of its exits passes a node for which pred holds
+// (sub-expressions included); escape is the exit reached without it.
+func everyPathPasses(info *types.Info, fd *ast.FuncDecl, pred func(ast.Node) bool) (bool, ast.Node) {
+	g := rules.CFG(info, fd.Body, nil)
+	seen := map[int32]bool{}
+	var escape ast.Node
+	escaped := false
+	var visit func(b *cfg.Block)
+	visit = func(b *cfg.Block) {
+		if seen[b.Index] || escaped {
+			return
+		}
+		seen[b.Index] = true
+		for _, nd := range b.Nodes {
+			hit := false
+			ast.Inspect(nd, func(m ast.Node) bool {
+				if m != nil && pred(m) {
+					hit = true
+				}
+				return !hit
+			})
+			if hit {
+				return
+			}
+			if _, ok := nd.(*ast.ReturnStmt); ok {
+				escaped, escape = true, nd
+				return
+			}
+		}
+		if len(b.Succs) == 0 {
+			if !b.Live {
+				return
+			}
+			escaped = true
+			if len(b.Nodes) > 0 {
+				escape = b.Nodes[len(b.Nodes)-1]
+			}
+			return
+		}
+		for _, s := range b.Succs {
+			visit(s)
+		}
+	}
+	if len(g.Blocks) > 0 {
+		visit(g.Blocks[0])
+	}
+	return !escaped, escape
+}
+
+// c12replacerAdd: BuildResponse hands every pending patch of a file to insertionPointReplacer.Add; "a patch is inserted at
+// each occurrence of its insertion point" can only hold if Add records every patch it is given — whether the marker occurs
+// is decided by the replacement itself (strings.Replacer over the file's text), not by the table the constructor pre-fills
+// from a regular expression with a narrower alphabet. Rule (go/cfg): every path through Add stores into the replacer's
+// table under the marker it was given.
+func c12replacerAdd(c *core.Check) {
+	fd := c.Prog.FuncDecl("generator", "insertionPointReplacer.Add")
+	key := "generator.(insertionPointReplacer).Add/store"
+	if fd == nil || fd.Body == nil {
+		c.Unknown("anchor", "generator.(insertionPointReplacer).Add", "", "missing")
+		return
+	}
+	info := c.Prog.Pkg("generator").TypesInfo
+	var params []types.Object
+	for _, f := range fd.Type.Params.List {
+		for _, nm := range f.Names {
+			params = append(params, info.Defs[nm])
+		}
+	}
+	if len(params) != 2 {
+		c.Unknown("replacer-records-every-patch", key, c.Prog.Rel(fd.Pos()), "Add does not take (marker, content)")
+		return
+	}
+	marker := params[0]
+	ok, escape := everyPathPasses(info, fd, func(m ast.Node) bool {
+		as, isAs := m.(*ast.AssignStmt)
+		if !isAs {
+			return false
+		}
+		for _, l := range as.Lhs {
+			ix, isIx := l.(*ast.IndexExpr)
+			if !isIx {
+				continue
+			}
+			if tv, ok := info.Types[ix.X]; !ok || func() bool { _, isMap := tv.Type.Underlying().(*types.Map); return !isMap }() {
+				continue
+			}
+			if id, isID := ast.Unparen(ix.Index).(*ast.Ident); isID && info.Uses[id] == marker {
+				return true
+			}
+		}
+		return false
+	})
+	where := c.Prog.Rel(fd.Pos())
+	if escape != nil {
+		where = c.Prog.Rel(escape.Pos())
+	}
+	c.Decide(ok, "replacer-records-every-patch", key, where,
+		"every path through Add stores under the marker it was given",
+		"Add can return without storing the patch: a patch for a marker that is not in the pre-filled table (the table is filled from a regular expression that only knows names over [$.0-9a-zA-Z_]) is dropped and the marker stays in the file, although Feed accepted the patch")
+}
